@@ -1044,8 +1044,10 @@ caption_command(vbi_decoder *vbi, struct caption *cc,
 				ch->attr.italic = FALSE;
 				ch->attr.foreground = palette_mapping[c2];
 			} else {
+				/* 47 CFR 15.119 (h)(1)(ii): The color can only
+				   be changed by the Mid-Row Code of another
+				   color, italics follow the color assignment. */
 				ch->attr.italic = TRUE;
-				ch->attr.foreground = VBI_WHITE;
 			}
 
 			/* 47 CFR 15.119 (h)(1)(i), EIA 608-B Section
